@@ -63,6 +63,9 @@ func (q *reqSpec) asksClose() bool { return q.Close || (q.Proto == "HTTP/1.0" &&
 type plan struct {
 	Pipelined bool
 	Long      bool // a long keep-alive sequence of requests with large heads
+	// HalfClose: the client shuts down its sending direction right after the
+	// last byte it has to send and goes on reading its responses.
+	HalfClose bool
 	Reqs      []*reqSpec
 	Ress      []*resSpec
 	ReqBytes  [][]byte
@@ -337,6 +340,7 @@ func generate(rng *rand.Rand, c connCase, thorough bool) *plan {
 		p.SegMode = 1 + rng.Intn(3)
 	}
 	p.OCuts = rng.Intn(2) == 0
+	p.HalfClose = rng.Intn(4) == 0
 	host := fmt.Sprintf("o%d.test", c.Idx%7)
 	auths := []string{host, host + ":80", host + ":8080"}
 	auth := auths[rng.Intn(len(auths))]
